@@ -247,6 +247,7 @@ func runWorldSeq(s *kernel.Sim, p profile) {
 		a.Kind = []string{"geth", "geth", "parity", ""}[s.Choose("kind", 4)]
 		if p.hostPolicies && a.IsHost {
 			a.Policy = []HostPolicy{PolicyAck, PolicyAck, PolicyAck, PolicyError, PolicySilent, PolicySlow, PolicyDeaf}[s.Choose("policy", 7)]
+			a.AckValue = s.Choose("ackvalue", 4) == 0
 		}
 		if s.Choose("haswallet", 3) != 0 {
 			a.Wallet = w.Wallets[s.Choose("wallet", len(w.Wallets))]
